@@ -29,6 +29,7 @@ class Cfg:
         self.int_range = (0, 4)
         self.empty_domain = 0.06
         self.single_top = 0.8            # probability that entity()/set_of() gets ONE condition (else 2-3, chained by and_)
+        self.closed = 0.0                # probability that a leaf is a comparison / membership test over CONSTANTS only
         self.__dict__.update(kw)
 
 
@@ -126,8 +127,18 @@ class CondGen:
         """The attribute that may hold any value (falsy ones included): only ==, != and membership."""
         return ('attr', 'b', self.obj_term())
 
+    def closed_leaf(self):
+        """A leaf that mentions no variable: in_(k, [..]), contains([..], k)."""
+        rng = self.rng
+        k = ('lit', ('i', rng.randint(0, 3)))
+        lst = ('lit', ('l',) + tuple(('i', rng.randint(0, 3)) for _ in range(rng.randint(0, 3))))
+        # (k op k' between two Python constants is evaluated by Python itself and is not an expression: not generated)
+        return ('in', k, lst) if rng.random() < 0.55 else ('contains', lst, k)
+
     def atom(self):
         rng, cfg = self.rng, self.cfg
+        if cfg.closed and rng.random() < cfg.closed:
+            return self.closed_leaf()
         r = rng.random()
         if r < 0.45:
             op = rng.choice(CMP_OPS)
